@@ -34,7 +34,7 @@ func runC06(r *Run) {
 			r.Fail("C06.1", k.fn, "", "function not found")
 			continue
 		}
-		a := w.A(fn)
+		a := w.AU(fn)
 		// reset at entry
 		var totalStores []*ssa.Store
 		a.Instrs(func(in ssa.Instruction) {
@@ -115,7 +115,7 @@ func runC06(r *Run) {
 	}
 	// vote distribution helper
 	if fn := w.Fn("tmi.newVoteDistribution"); fn != nil {
-		a := w.A(fn)
+		a := w.AU(fn)
 		bound, _ := a.IfEdges("($i < @len(p1))", true, nil)
 		a.Instrs(func(in ssa.Instruction) {
 			up, ok := in.(*ssa.MapUpdate)
@@ -215,6 +215,18 @@ func runC06(r *Run) {
 				v = bb["$v"]
 				kindOK = bb["$k"].String() == v.String()+".MostVotedPrecommitHash"
 			} else {
+				// any other operand that is computed from summary quantities (a sum of two totals, a
+				// total plus a block power, ...) counts some validator more than once or mixes kinds
+				mentions := false
+				x.Walk(func(y *Shape) {
+					if y.K == "fld" && (y.S == "TotalPrevotePower" || y.S == "TotalPrecommitPower" || y.S == "PrevoteBlockPower" || y.S == "PrecommitBlockPower") {
+						mentions = true
+					}
+				})
+				if mentions {
+					n++
+					r.Fail("C06.4", ord.Next(FuncName(fn)+"#threshold"), w.InstrPos(in), "the power compared with a threshold is computed from summary quantities ("+truncate(x.String(), 140)+") instead of being one total or one block power: a validator that cast both kinds of vote, or voted for several targets, is counted more than once")
+				}
 				return
 			}
 			n++
